@@ -134,16 +134,8 @@ func do(p string, dir *migrate.LocalDir, s step) {
 		writeSum(p, l)
 	case "sum-edit-hash":
 		l := sumLines(p)
-		editHash++
-		if s.K+1 < len(l) && l[s.K+1] != "" && editHash%2 == 0 {
-			// another way to damage the recorded hash: move its last character to the front of the next line's file name
-			// (the concatenation of all names and hashes - what the total in line 1 covers - stays the same)
-			n := len(l[s.K])
-			l[s.K], l[s.K+1] = l[s.K][:n-1], l[s.K][n-1:]+l[s.K+1]
-		} else {
-			i := strings.Index(l[s.K], "h1:")
-			l[s.K] = flipB64(l[s.K], i+5)
-		}
+		i := strings.Index(l[s.K], "h1:")
+		l[s.K] = flipB64(l[s.K], i+5)
 		writeSum(p, l)
 	case "sum-edit-name":
 		l := sumLines(p)
@@ -541,8 +533,6 @@ func bytesMode(out string, maxFiles int) {
 	f.Close()
 	json.NewEncoder(os.Stdout).Encode(map[string]any{"events": nev, "directories": ncase, "outcomes": outs, "samples": sample})
 }
-
-var editHash int
 
 func main() {
 	switch os.Args[1] {
